@@ -43,12 +43,17 @@ def geometries(tier):
         for (df, dt, fch1) in GEOM3[:2]:
             for asc in (True, False):
                 out.append(dict(df=df, dt=dt, fch1=fch1, asc=asc, tchans=3, fchans=6))
+        # a frame whose own time axis does not start at zero (the values are defined at the frame's OWN axes)
+        out.append(dict(df=1.0, dt=1.0, fch1=100.0, asc=True, tchans=3, fchans=6, ts0=37.5))
     else:
         for (df, dt, fch1) in GEOM3:
             for asc in (True, False):
                 for tch in (1, 2, 3, 4):
                     for fch in (1, 2, 6, 7):
                         out.append(dict(df=df, dt=dt, fch1=fch1, asc=asc, tchans=tch, fchans=fch))
+        for asc in (True, False):
+            for ts0 in (37.5, -2.25):
+                out.append(dict(df=1.0, dt=1.0, fch1=100.0, asc=asc, tchans=3, fchans=6, ts0=ts0))
     return out
 
 
@@ -130,8 +135,11 @@ def _rng(seed, tag):
 
 def make_frame(g):
     import setigen as stg
-    return stg.Frame(fchans=g['fchans'], tchans=g['tchans'], df=g['df'], dt=g['dt'], fch1=g['fch1'],
-                     ascending=g['asc'], t_start=0.0)
+    fr = stg.Frame(fchans=g['fchans'], tchans=g['tchans'], df=g['df'], dt=g['dt'], fch1=g['fch1'],
+                   ascending=g['asc'], t_start=0.0)
+    if g.get('ts0'):
+        fr.ts = fr.ts + g['ts0']
+    return fr
 
 
 _FRAMES = {}
@@ -144,7 +152,7 @@ def zero_frame(g):
     the axes alone, which is verified bit for bit after EVERY call (`axes_intact`) -- a frame whose axes
     moved is reported and discarded.
     """
-    key = (g['fchans'], g['tchans'], g['df'], g['dt'], g['fch1'], g['asc'])
+    key = (g['fchans'], g['tchans'], g['df'], g['dt'], g['fch1'], g['asc'], g.get('ts0', 0.0))
     ent = _FRAMES.get(key)
     if ent is None:
         fr = make_frame(g)
@@ -167,7 +175,7 @@ def _ones_profile(f, f_center):
 
 
 def axes_intact(g):
-    key = (g['fchans'], g['tchans'], g['df'], g['dt'], g['fch1'], g['asc'])
+    key = (g['fchans'], g['tchans'], g['df'], g['dt'], g['fch1'], g['asc'], g.get('ts0', 0.0))
     fr, fs0, ts0, sc = _FRAMES[key]
     ok = (np.array_equal(fr.fs, fs0) and np.array_equal(fr.ts, ts0) and fr.data.shape == (sc[4], sc[3])
           and (fr.df, fr.dt, fr.fch1, fr.fchans, fr.tchans) == sc)
@@ -308,6 +316,12 @@ def _raise_tag(case, exc):
 # ------------------------------------------------------------------------------------------------
 # the case function
 # ------------------------------------------------------------------------------------------------
+def _stochastic(case):
+    t = case['t']
+    return ('rfi' in case['path']['kind'] or bool(t.get('jitter')) or t.get('direction') == 'random'
+            or (t['kind'].startswith('periodic') and t.get('pnum', 3) % 2 == 0))
+
+
 def case_signal(case):
     viol = []
 
@@ -336,9 +350,10 @@ def case_signal(case):
     cls = RS.bounding_classes(fs, fr.df, bound[0], bound[1]) if bound is not None else ['in'] * n
 
     # ---- implementation ------------------------------------------------------------------------
+    args = [RS.impl_path(ps), RS.impl_t_profile(tsp), RS.impl_f_profile(fsp), RS.impl_bp_profile(bsp)]
+    snaps = [(np.array(a, copy=True) if isinstance(a, np.ndarray) else (list(a) if isinstance(a, list) else None)) for a in args]
     try:
-        got = fr.add_signal(RS.impl_path(ps), RS.impl_t_profile(tsp), RS.impl_f_profile(fsp),
-                            RS.impl_bp_profile(bsp), **kw)
+        got = fr.add_signal(*args, **kw)
     except Exception as e:
         if not axes_intact(g):
             V('axes_changed', 'frame axes / scalars changed by a rejected add_signal call')
@@ -346,7 +361,23 @@ def case_signal(case):
           'valid arguments rejected: %s: %s | path=%s t=%s f=%s bp=%s kwargs=%s'
           % (type(e).__name__, str(e)[:200], ps, tsp, fsp, bsp, kw))
         return {'viol': viol, 'outcomes': ['raised/%s' % type(e).__name__]}
-    got = np.asarray(got)
+    got = np.array(got)
+    # the caller's own argument objects are inputs: an array/list handed in is unchanged afterwards, and handing the same
+    # objects in again gives the same signal
+    for nm, a, s0 in zip(('path', 't_profile', 'f_profile', 'bp_profile'), args, snaps):
+        if s0 is not None and not (np.array_equal(a, s0) if isinstance(a, np.ndarray) else list(a) == s0):
+            V('caller_argument_modified', 'the %s array/list passed in was modified in place by add_signal: %r -> %r'
+              % (nm, np.asarray(s0).ravel()[:4].tolist(), np.asarray(a).ravel()[:4].tolist()))
+            return {'viol': viol, 'outcomes': ['arg_modified']}
+    if any(s0 is not None for s0 in snaps) and not _stochastic(case):
+        fr.data[:] = 0.0
+        try:
+            got2 = np.array(fr.add_signal(*args, **kw))
+            if got2.shape != got.shape or not np.array_equal(got2, got):
+                V('same_arguments_different_signal', 'injecting the same argument objects a second time into the zeroed frame gives a '
+                  'different signal (max |diff| %.3g)' % (float(np.max(np.abs(got2 - got))) if got2.shape == got.shape else -1))
+        except Exception as e:
+            V('same_arguments_raised', 'second injection of the same argument objects raised %s: %s' % (type(e).__name__, str(e)[:150]))
     if not axes_intact(g):
         V('axes_changed', 'frame axes / scalars (fs, ts, df, dt, fch1, shape) changed by add_signal')
         return {'viol': viol, 'outcomes': ['axes_changed']}
